@@ -7,6 +7,7 @@ import (
 	"fmt"
 	"os"
 	"runtime/debug"
+	"runtime/pprof"
 	"strconv"
 	"strings"
 	"time"
@@ -24,7 +25,13 @@ func main() {
 	list := flag.Bool("list", false, "list rules")
 	replay := flag.String("replay", "", "replay file: re-run the rule of the recorded obligation")
 	manifest := flag.String("manifest", "", "write MANIFEST.json to this path and exit")
+	cpuprof := flag.String("cpuprofile", "", "write cpu profile")
 	flag.Parse()
+	if *cpuprof != "" {
+		f, _ := os.Create(*cpuprof)
+		pprof.StartCPUProfile(f)
+		go func() { time.Sleep(25 * time.Second); pprof.StopCPUProfile(); f.Close(); os.Exit(3) }()
+	}
 	if *manifest != "" {
 		if err := writeManifest(*manifest); err != nil {
 			fmt.Println(err)
